@@ -536,7 +536,7 @@ pub fn c15(tier: Tier) -> i32 {
         "every rejected text of each universe: TomlError and toml::de::Error must have a non-empty message, a span in bounds on char boundaries, panic-free Display/Debug, and a rendered 'line L, column C' equal to the reference position of span.start (characters, not bytes; one past the last line's end at end of input); every (document, mismatching target type) pair of the typed family: from_str error carries the offending value's span, Value::try_into error carries the key path; non-trivial = distinct rejected texts / failing pairs",
     );
     rep.assumptions = vec!["the reference position is computed independently: line = 1 + LFs before the offset, column = 1 + characters since the line start".into()];
-    docu::run(&mut rep, tier, &["tok", "ctx", "corpus", "byte", "num", "dt", "stmt-small", "cp", "utf8"], &c15_eval);
+    docu::run(&mut rep, tier, &["tok", "ctx", "corpus", "byte", "num", "dt", "stmt-small", "cp", "utf8", "bom"], &c15_eval);
     {
         let t0 = std::time::Instant::now();
         let cases = mb_cases();
